@@ -55,6 +55,11 @@ def main(tier, rep):
         vec.append(([], s))
         vec.append(([54, 54, 54, 54], s))
         vec.append((list(b"10.0.0.1:11211-some-key"), s))
+    # the function is pure: the same string under one seed and then another (in both orders, repeatedly) -- a value remembered
+    # from an earlier call must not come back
+    for d in ([], [54, 54, 54, 54], list(b"10.0.0.1:11211-key"), [0, 0, 0, 0, 0], [rnd.randrange(256) for _ in range(37)]):
+        for a, b in ((1, 0), (0, 1), (2 ** 31, 0), (0x9747B28C, 0), (0, 0x9747B28C), (5, 6)):
+            vec += [(d, a), (d, b), (d, a), (d, b)]
     nlat = len(vec)
     # beyond Latin-1: still a deterministic 32-bit value
     for _ in range(60 if tier == "quick" else 600):
